@@ -176,7 +176,7 @@ func C15(c *Ctx) {
 // basicLatinCaseClosure: BasicLatinLookup receives the raw (un-lowered) members, while the general path compares the
 // lower-cased input with lower-cased members. For chars and ranges the table must therefore contain, under
 // ignoreCase, both the upper-case and the lower-case twin of every member: the stores under the ignoreCase guard
-// must use both unicode.ToUpper and unicode.ToLower (or unicode.SimpleFold) to compute indices.
+// must use both unicode.ToUpper and unicode.ToLower to compute indices (unicode.SimpleFold is not an alternative: it can leave the Basic Latin block).
 func basicLatinCaseClosure(c *Ctx, rule string) {
 	r := c.R
 	g := c.G()
@@ -217,7 +217,7 @@ func basicLatinCaseClosure(c *Ctx, rule string) {
 			r.Unk(rule, construct, "", g.Where(fd.Pos()), "member loop over "+src+" not found")
 			continue
 		}
-		up, low, fold, raw := false, false, false, false
+		up, low, raw := false, false, false
 		ast.Inspect(loop, func(n ast.Node) bool {
 			as, ok := n.(*ast.AssignStmt)
 			if !ok || len(as.Lhs) != 1 {
@@ -239,14 +239,12 @@ func basicLatinCaseClosure(c *Ctx, rule string) {
 				up = up || underIC
 			case strings.Contains(idx, "unicode.ToLower("):
 				low = low || underIC
-			case strings.Contains(idx, "SimpleFold"):
-				fold = fold || underIC
 			default:
 				raw = true
 			}
 			return true
 		})
-		ok := raw && ((up && low) || fold)
+		ok := raw && up && low
 		r.Check(ok, rule, construct, "", g.Where(loop.Pos()), "the member itself plus, under "+ic+", both its upper-case and lower-case twin",
 			fmt.Sprintf("member stored=%t, upper-case twin under %s=%t, lower-case twin under %s=%t: the raw members are passed in, so a member written in one case lacks its twin in the other ([XYZ]i would not match x with -optimize-basic-latin)", raw, ic, up, ic, low))
 	}
